@@ -12,7 +12,10 @@ Decides (structurally, on every path of the generator - not per position):
  G6     legality filter: verification may be skipped only for Normal moves of pieces not aligned with a king that is
         not in check; everything else is push -> is_targeted(own king, mover) -> pop and kept iff not attacked;
  G7     king steps next to the enemy king are skipped (both coordinates within 1);
- G8     the filter only compacts: checked list is a sub-list of the unchecked list.
+ G8     the filter only compacts: checked list is a sub-list of the unchecked list;
+ G10    the castling conditions never look at the rook: they trust the rights bits, so the revocation rules of
+        Game::push (C02.R2 rook captured on / leaving its home square, C02.R3 king moves) are a premise of G5 along
+        every history and are re-checked here.
 Does NOT decide: equality of the generated set with the FIDE set in every reachable position.
 """
 from . import core, hir
@@ -49,6 +52,23 @@ def run(ctx):
     g6(ctx, F, D)
     g7(ctx, F, D)
     g9(ctx, F, D)
+    g10(ctx, F)
+
+
+def g10(ctx, F):
+    from . import p02, surgery
+    from .p16 import relabel
+    fn = F.fn(p02.PUSH)
+    before, nv = len(ctx.instances), len(ctx.violations)
+    try:
+        ex, arms = surgery.extract(fn, F)
+    except surgery.Extraction as e:
+        ctx.check("C01.G10", "extraction", False, fn=p02.PUSH, file=fn["file"], nontrivial=False,
+                  what="Game::push is not extractable, the castling-right premise of G5 cannot be decided: %s" % e)
+        return
+    p02.r2(ctx, F, fn, arms)
+    p02.r3(ctx, F, fn, arms)
+    relabel(ctx, before, nv, "C01.G10")
 
 
 # ---------------------------------------------------------------------------
